@@ -143,6 +143,12 @@ theorem gen_averaging :
         "average_quaternion = q_average(np.array(list(quats)))", "positions = map(lambda x: x.translation, poses)",
         "average_pos = np.average(np.array(list(positions)), axis=0)"], e ∈ Gen.C09.avgAssigns) := by decide
 
+/-- no statement of the entry points mutates an object owned by the caller (the session model rests on this) -/
+theorem gen_entry_points_pure : Gen.C09.callerArgMutations = [] ∧
+    (∀ f ∈ ["LighthouseSampleMatcher.match", "LighthouseInitialEstimator.estimate", "LighthouseGeometrySolver.solve",
+        "LighthouseGeometrySolver._populate_initial_guess", "LighthouseGeometrySolver._populate_indexes_and_jacobian",
+        "LighthouseGeometrySolver._condense_results"], f ∈ Gen.C09.callerArgFunctions) := by decide
+
 /-! ## T1 — sample matcher -/
 
 section T1
@@ -555,6 +561,24 @@ theorem initial_guess_layout {α P : Type} (toParams : P → List α) (zero : α
     rw [show 6 * bsPoses.length + 6 * j = pb.flatten.length + j * 6 by rw [hlb, hpbl, e1, hkl]; omega, List.drop_append,
       List.drop_of_length_le (by omega), Nat.add_sub_cancel_left, List.nil_append]
     exact flatten_window 6 pc hpcw j _ hrow
+
+/-- **`solve` is repeatable and leaves the caller's objects alone.**  Any number of consecutive `solve` calls on the same
+`initial_guess` / `matched_samples` objects (retry, re-solve): the objects are unchanged afterwards and every call
+starts the optimiser from the same `x0` — the one `initial_guess_layout` describes.  (By construction of the session
+model, whose only assumption — no entry point mutates a caller object — is the obligation `gen_entry_points_pure`; the
+correspondence and search() call the real entry points repeatedly on the same objects.) -/
+theorem solve_repeatable {α P : Type} (toParams : P → List α) (zero : α) (defs : Defs) (n : Nat) (a : SolveArgs P) :
+    (solveSession toParams zero defs n a).1 = a ∧
+    ∀ r ∈ (solveSession toParams zero defs n a).2, r = initialX0 toParams zero defs a.guessBs a.guessCf := by
+  induction n with
+  | zero => exact ⟨rfl, by simp [solveSession]⟩
+  | succ n ih =>
+    simp only [solveSession, solveCall]
+    refine ⟨ih.1, ?_⟩
+    intro r hr
+    rcases List.mem_cons.mp hr with rfl | h
+    · rfl
+    · exact ih.2 r h
 
 section T4dep
 variable {α β : Type}
